@@ -83,3 +83,37 @@ def init_literals(mod, clsname):
                     elif isinstance(v, ast.Dict) and not v.keys:
                         out.setdefault(t.attr, {})
     return out
+
+
+MOCKED_ESTABLISHED = frozenset((
+    'do_nothing', '_disabled_compile', '_disabled_eval', '_disabled_exec', '_disabled_globals', 'FunctionNotAllowed',
+    'disabled_builtin', 'create_open_function', 'create_import_function', 'make_inputs', 'PrintingStringIO',
+    'make_fake_output', 'create_module', 'MockModule', 'MockDictModule', 'BlockedModule', 'MockPedal',
+    'generic_function_capture', 'MethodExposer', 'MockModuleExposing'))
+
+
+def module_stub(sym, target_mod, alias, established, events=None, **data):
+    """Stand-in for a pedal module used as `alias.X(...)`: the established factories and classes give marker objects
+    (`made_by`, `args`), module-level data comes from `data`, and any OTHER function the module defines today - a
+    helper a refactoring moved there - is interpreted in that module, with the same markers for the established names.
+    Returns (stand-in object, marker maker)."""
+    o = Obj(alias, **data)
+    o.attrs['__open__'] = True
+
+    def marker(nm, *a, **k):
+        if events is not None:
+            events.append((alias + '.' + nm, a, k))
+        return Obj('%s.%s(...)' % (alias, nm), made_by=nm, args=a)
+
+    def unknown(nm, *a, **k):
+        fn = target_mod.functions.get(nm)
+        if nm in established or fn is None:
+            return marker(nm, *a, **k)
+        calls = {e: (lambda *aa, _e=e, **kk: marker(_e, *aa, **kk)) for e in established}
+        fd = new_fd(sym, target_mod, calls=calls, extra=dict(data))
+        value, raised = run(fd, fn, list(a), k, what='%s.%s' % (alias, nm))
+        if raised is not None:
+            raise raised
+        return value
+    o.attrs['__unknown_method__'] = unknown
+    return o, unknown
